@@ -38,8 +38,8 @@ class AstToSqlAlchemyOrmVisitor(common._CommonVisitors, visitor.NodeVisitor):
         # But we need the model pointed to by the relationship.
         prop_inspect = inspect(rel_attr).property
         if not isinstance(prop_inspect, RelationshipProperty):
-            # TODO: new exception:
-            raise ValueError(f"Not a relationship: {node.owner}")
+            # Only relationships can be traversed:
+            raise ex.InvalidFieldException(node.attr)
         self.join_relationships.append(rel_attr)
 
         # We'd like to reference the column on the related class:
